@@ -5,7 +5,7 @@ from . import e2e, outparse, quicsynth, scene, suites, tcpcap, tlssynth
 
 
 def random_tls_flow(rng, idx=0, ep=None, nmax=12, big=False, segkinds=("mss", "random", "whole", "records", "tail1"), version=None, code=None, sport=443, v6=None,
-                    min_records=0, perturb=False, resume_of=None, duplex=False, repack=False, hrr=False):
+                    min_records=0, perturb=False, resume_of=None, duplex=False, repack=False, hrr=False, compress=False):
     """resume_of: an earlier TLS <= 1.2 flow whose session this one resumes (same version, suite and master secret, fresh randoms)"""
     mx = suites.matrix()
     if version is None:
@@ -20,6 +20,7 @@ def random_tls_flow(rng, idx=0, ep=None, nmax=12, big=False, segkinds=("mss", "r
         spec.master = resume_of.conn.master
         spec.etm = resume_of.conn.spec.etm
     spec.hrr = bool(hrr)
+    spec.compress = bool(compress) and suites.parse_name(suites.REGISTRY[c])["mode"] != "STREAM"      # (RC4 + DEFLATE: TLExport exports the compressed bytes - outside every claimed domain, see DESIGN section 1)
     while len(spec.app) < min_records:
         spec.app.append((rng.choice("cs"), rng.randbytes(rng.randrange(1, 200))))
     conn = tlssynth.build_conn(spec, rng)
@@ -36,7 +37,7 @@ def random_tls_flow(rng, idx=0, ep=None, nmax=12, big=False, segkinds=("mss", "r
         segs = tcpcap.interleave_app(segs, conn.events, rng)
         segkind += "+duplex"
     fl = scene.tls_flow(conn, ep, segs, ethpad=(ep.cport + ep.cisn) % 5 == 0)      # a fifth of the flows: receiver-side capture with Ethernet padding
-    fl.label = f"tls-{suites.VNAME[v]}-{c:04X}" + ("-resumes" if resume_of is not None else "")
+    fl.label = f"tls-{suites.VNAME[v]}-{c:04X}" + ("-resumes" if resume_of is not None else "") + ("-deflate" if spec.compress and v != 0x0304 else "")
     fl.segkind = segkind
     return fl
 
